@@ -281,7 +281,7 @@ def faithOp (toks : List String) : String :=
         | some path, some id => some (splitPath path, Val.scalar id)
         | _, _ => none
       let v := written.foldl (fun acc p => insertVal acc p.1 p.2) (Val.map [])
-      match decodeV S d v with
+      match (componentHooks Gen.ConfigSchemas.customPositions comp).bind (fun hooks => decodeC hooks S d v) with
       | none => "obs shown decode-failed"
       | some t =>
         let e := encodeV S t
